@@ -259,7 +259,9 @@ func (p *Prog) fillComplete(arr *types.Array, k int64) (bool, string) {
 // isVarargsArray: a compiler-made argument array of a variadic call whose only uses are element stores and the final slice.
 func isVarargsArray(v ssa.Value) bool {
 	a, ok := v.(*ssa.Alloc)
-	if !ok || a.Comment != "varargs" {
+	// the backing array of a variadic argument list or of a slice literal ([]interface{}{x, y}): it is reached only as a slice, never as
+	// an element of a slice of arrays, so what is stored in it says nothing about the contents of such elements
+	if !ok || (a.Comment != "varargs" && a.Comment != "slicelit") {
 		return false
 	}
 	if refs := a.Referrers(); refs != nil {
